@@ -1,8 +1,9 @@
 #!/bin/bash
 # tools/selftest_all.sh [jobs] [seeds]: re-confirm EVERY kept mutant (seeded/*, mutants/*) against the current checks:
-# the demo discriminates and each check named in meta.json reports a VIOLATION. Prints one line per (mutant, check, seed).
+# the demo discriminates and each check named in meta.json reports a VIOLATION (mutants whose meta.json says obsolete_since - a
+# repair made the patched code harmless - are skipped). Prints one line per (mutant, check, seed).
 cd /verif
 jobs=${1:-3}; seeds=${2:-0}
 ls -d seeded/*/ mutants/*/ 2>/dev/null | while read d; do
-  [ -f "$d/patch.diff" ] && echo "$d"
+  [ -f "$d/patch.diff" ] && ! grep -q obsolete_since "$d/meta.json" && echo "$d"
 done | xargs -P "$jobs" -I{} sh -c '/venv/bin/python -B tools/selftest.py {}patch.diff --seeds '"$seeds"' 2>&1 | grep -E "check C|DISCRIMINATE|HARNESS" | cut -c1-160'
